@@ -600,8 +600,14 @@ func main() {
 	})
 	for _, v := range m.Violations {
 		seenSig[v.Signature]++
-		if seenSig[v.Signature] > 3 {
-			continue // keep at most 3 replay files per class
+		isKnown := false
+		for _, f := range findings {
+			if f.Property == id && f.Status == "known" && f.Signature == v.Signature {
+				isKnown = true
+			}
+		}
+		if seenSig[v.Signature] > 3 || (isKnown && seenSig[v.Signature] > 1) {
+			continue // keep at most 3 replay files per class (1 for a listed known finding)
 		}
 		vb, _ := json.MarshalIndent(v, "", " ")
 		sum := sha256.Sum256(vb)
@@ -643,7 +649,7 @@ func main() {
 		}
 	}
 
-	exhaustive := !m.Capped && len(infra) == 0 && len(m.Violations) == 0
+	exhaustive := !m.Capped && len(infra) == 0 && len(unlisted) == 0
 	cov := map[string]any{
 		"states":                        max64(nStates, 1),
 		"transitions":                   max64(m.Transitions, 1),
